@@ -760,6 +760,39 @@ def file_outcome(case, ms):
     return all(verdicts)
 
 
+def flat(td, prefix=()):
+    """template-data as {key path: leaf}; an empty map and a list are leaves"""
+    out = {}
+    for k, v in td.items():
+        if isinstance(v, dict) and v:
+            out.update(flat(v, prefix + (k,)))
+        else:
+            out[prefix + (k,)] = json.dumps(v, sort_keys=True)
+    return out
+
+
+def td_acceptable(got, want, alts):
+    """The chain of the property fixes [want].  For a mock of a sub-package that a recursive package
+    discovers, the code also merges the recursive package's maps in - as ((sub <- top) <- parent),
+    which under a kind conflict between the top level and the parent is neither the chain
+    [..; top; parent] nor [..; parent; top] as a whole.  The property does not rank that level, so
+    the oracle accepts, key path by key path, what either placement gives, and insists on every
+    path on which all placements agree."""
+    if got == want or got in alts:
+        return True
+    if not alts:
+        return False
+    cands = [flat(want)] + [flat(a) for a in alts]
+    g = flat(got)
+    for path, leaf in g.items():
+        if not any(c.get(path) == leaf for c in cands):
+            return False
+    for path, leaf in cands[0].items():
+        if all(c.get(path) == leaf for c in cands) and g.get(path) != leaf:
+            return False
+    return True
+
+
 def leaves(v):
     if isinstance(v, dict):
         for x in v.values():
@@ -842,10 +875,13 @@ def oracle(case, obs):
             got.append([io["name"], io["struct"], io["td"], sorted(("%s.%s" % k, "%s.%s" % v) for k, v in rt.items())])
         want = [parts(m) for m in ms]
         for j, m in enumerate(ms):
-            for td2, rt2 in m["alt"]:
-                k2 = parts(dict(m, td=td2, rt=rt2))
-                if j < len(got) and got[j] == k2:
-                    want[j] = k2
+            if j >= len(got) or not m["alt"]:
+                continue
+            alt_parts = [parts(dict(m, td=td2, rt=rt2)) for td2, rt2 in m["alt"]]
+            if td_acceptable(got[j][2], want[j][2], [a[2] for a in alt_parts]):
+                want[j][2] = got[j][2]
+            if got[j][3] in [a[3] for a in alt_parts]:
+                want[j][3] = got[j][3]
         if [g[0] for g in got] != [w[0] for w in want]:
             errs.append(("per-mock:interfaces", "%s: interfaces %r, expected %r" % (path, [g[0] for g in got], [w[0] for w in want])))
         else:
@@ -869,7 +905,7 @@ def oracle(case, obs):
         if len(tds) == 1:
             want_td = restrict(ms[0]["td"], case["tdkeys"][0]) if builtin else ms[0]["td"]
             alts = [restrict(a[0], case["tdkeys"][0]) if builtin else a[0] for a in ms[0]["alt"]]
-            if f["td"] != want_td and f["td"] not in alts:
+            if not td_acceptable(f["td"], want_td, alts):
                 errs.append(("per-file:template-data", "%s: file-level template-data %r, the mocks sharing the file say %r" % (path, f["td"], want_td)))
         # no leak: every marker seen comes from a level of the mock's own chain
         for m, io in zip(ms, f["ifaces"]):
